@@ -17,7 +17,7 @@ from checks.c14 import Model, decode_insts
 
 HERE = os.path.dirname(os.path.abspath(__file__))
 VERIF = os.path.dirname(HERE)
-EXTRACTORS = ["stepfile", "instmgr", "attrnull", "enums"]
+EXTRACTORS = ["stepfile", "instmgr", "attrnull", "enums", "threading"]
 STATES = ["completeSE", "incompleteSE", "newSE", "deleteSE"]
 LETTER = {"completeSE": "C", "incompleteSE": "I", "newSE": "N", "deleteSE": "D"}
 
@@ -25,6 +25,12 @@ LETTER = {"completeSE": "C", "incompleteSE": "I", "newSE": "N", "deleteSE": "D"}
 def mask(text):
     """the only part of a saved file that may differ between two saves: FILE_NAME's time stamp"""
     return re.sub(r"(FILE_NAME\('(?:[^']|'')*',)'[^']*'", r"\1'<time>'", text)
+
+
+def header_ents(text):
+    """the header entities of a file, one text per entity, FILE_NAME's time stamp masked (the model holds them as opaque texts)"""
+    return [x.strip() + ";" for x in G.header_of(text).split(";\n") if x.strip().rstrip(";")] and \
+           [x.strip().rstrip(";") + ";" for x in re.split(r";\s*\n", G.header_of(text) + "\n") if x.strip()]
 
 
 def partial_fill(rng, schema, pop, p=0.3):
@@ -97,8 +103,9 @@ def run_case(ctx, h, m, schema, pop, holes, states, strict, workdir, tag, reuse=
     if start == "working":
         text = G.render(schema.name, pop, working=[LETTER[s_] for s_ in states], header=header)
         open(base, "w").write(text)
+        m.cmd("fileheader " + " ".join(G.hx(x) for x in header_ents(text)))
         rh = kv(h.cmd(f"readwork {base}"))
-        rm = kv(m.cmd("readwork " + " | ".join(LETTER[s_] + " " + G.encode_inst(i) for s_, i in zip(states, pop))))
+        rm = kv(m.cmd("readwork " + " | ".join(LETTER[s_] + " " + G.encode_inst(i, schema) for s_, i in zip(states, pop))))
         # from here on the session holds the entries that were not marked deleted
         keep = [k for k, s_ in enumerate(states) if s_ != "deleteSE"]
         ren = {k: j for j, k in enumerate(keep)}
@@ -109,8 +116,9 @@ def run_case(ctx, h, m, schema, pop, holes, states, strict, workdir, tag, reuse=
     else:
         text = G.render(schema.name, pop, header=header)
         open(base, "w").write(text)
+        m.cmd("fileheader " + " ".join(G.hx(x) for x in header_ents(text)))
         rh = kv(h.cmd(f"read {base}"))
-        rm = kv(m.cmd("read " + " | ".join(G.encode_inst(i) for i in pop)))
+        rm = kv(m.cmd("read " + " | ".join(G.encode_inst(i, schema) for i in pop)))
     want_header = G.header_of(text)
     d0h, d0m = h.cmd("dump"), m.cmd("dump")
     if start == "working":
@@ -130,17 +138,21 @@ def run_case(ctx, h, m, schema, pop, holes, states, strict, workdir, tag, reuse=
     h.cmd(f"write {x[0]} 0 {wc}")
     # save / load / save / load / save
     h.cmd(f"writework {w[0]} {wc}")
-    mw0 = m.cmd("writework")
+    mw0 = m.cmd(f"writework {wc}")
+    mh0 = m.cmd("header")
+    m.cmd("fileheader " + mh0[2:])
     r1h = kv(h.cmd(f"readwork {w[0]}"))
     r1m = kv(m.cmd("readwork " + mw0[2:]))
     d1h, d1m = h.cmd("dump"), m.cmd("dump")
     h.cmd(f"writework {w[1]} {wc}")
-    mw1 = m.cmd("writework")
+    mw1 = m.cmd(f"writework {wc}")
+    m.cmd("fileheader " + m.cmd("header")[2:])
     h.cmd(f"readwork {w[1]}")
     m.cmd("readwork " + mw1[2:])
     d2h, d2m = h.cmd("dump"), m.cmd("dump")
     h.cmd(f"writework {w[2]} {wc}")
-    mw2 = m.cmd("writework")
+    mw2 = m.cmd(f"writework {wc}")
+    mh2 = m.cmd("header")
     # exchange round trip in a fresh session, same mode
     h.cmd(f"reset {strict}")
     h.cmd(f"read {x[0]}")
@@ -219,9 +231,13 @@ def run_case(ctx, h, m, schema, pop, holes, states, strict, workdir, tag, reuse=
             ws = g.split()
             inst, rest = G.decode_words(ws[1:])
             ment.append((ws[0], inst))
-        if [(l, i.id) for l, i in ment] != [(l, i.id) for l, i in es] or \
+        if [(l, i.id, i.comment or None) for l, i in ment] != [(l, i.id, i.comment or None) for l, i in es] or \
                 not all(G.inst_equal(a[1], b[1]) for a, b in zip(ment, es)):
             return ("correspondence", f"{nm}: impl {[(l, G.render_inst(i)) for l, i in es][:6]} model {[(l, G.render_inst(i)) for l, i in ment][:6]}")
+    for nm, mh, path in (("first save", mh0, w[0]), ("third save", mh2, w[2])):
+        mhe = [bytes.fromhex(x).decode("latin-1") if x != "-" else "" for x in mh[2:].split()]
+        if mhe != header_ents(open(path).read()):
+            return ("correspondence", f"{nm}: header impl {header_ents(open(path).read())} model {mhe}")
     for key in ("incr", "n", "max"):
         if r1h[key] != r1m[key]:
             return ("correspondence", f"readwork {key}: impl {r1h[key]} model {r1m[key]}")
